@@ -179,6 +179,15 @@ NOT_WITNESS = [b'\x00\x01\x51', b'\x00\x29' + b'\x55' * 41, b'\x00\x03\x51\x51\x
 D17 = 'D17-sighash-base-witness-shaped-subscript-asserts'
 
 
+import re as _re
+_DIGEST = _re.compile(r'[0-9a-f]{64}\Z')
+
+
+def conforming_answer(mo):
+    """the property-conforming wrapper answers with the consensus digest or ValueError, nothing else"""
+    return bool(_DIGEST.match(mo)) or mo == 'err:valueerr'
+
+
 def is_witness_shape(sc):
     """own reading of BIP141: version opcode (OP_0, OP_1..OP_16) + one direct push of 2..40 bytes, nothing else"""
     return (4 <= len(sc) <= 42 and (sc[0] == 0 or 0x51 <= sc[0] <= 0x60) and sc[1] + 2 == len(sc))
@@ -340,7 +349,14 @@ class C03(Prop):
                     'hashlib by every digest compared in this run',
                     'Model.Wire.serTx (shared wire model, C01) for the serialisation of the scratch transaction',
                     'btcmodel executable = compiled Model.* (Lean compiler)']
-    assumptions = ['transaction fields lie in their wire ranges (Spec.Sighash.FieldsWF); input index >= 0']
+    assumptions = ['transaction fields lie in their wire ranges (Spec.Sighash.FieldsWF)',
+                   'input index >= 0 (Python wrap-around of negative indices is not modelled here: declared exclusion; '
+                   'C06/C07 model it, D7)',
+                   'EXCLUSION (known finding D17): for a subscript that has the shape of a witness program the shipped '
+                   'convenience form SignatureHash(.., SIGVERSION_BASE) raises AssertionError (an assert API precondition) '
+                   'instead of returning the consensus digest / raising ValueError; the theorems about the convenience '
+                   'form are about the property-conforming wrapper, the shipped one is '
+                   'Model.signatureHashBaseAsCoded (wrapper_witness_program_asserts, wrapper_as_coded_eq; op c03.wrapper.coded)']
     rule = ('sampled transactions (1..4 inputs, 0..4 outputs, +-witness, field values at int/uint edges, both classes) x '
             'subscripts from a grammar (CODESEPARATOR start/middle/end/consecutive, 0xab inside direct/PUSHDATA1/2/4 '
             'payloads and as a length byte, scripts that do not parse) x every index 0..|vin| x ALL 256 hash-type bytes; '
@@ -415,6 +431,7 @@ class C03(Prop):
                 for ht in HT_STANDARD + (0, rng.randrange(256)):
                     yield mk('c03.raw', cls, sc.hex(), text, idx, ht, tag='template')
                     yield mk('c03.wrapper', cls, sc.hex(), text, idx, ht, tag='template')
+                    yield mk('c03.wrapper.coded', cls, sc.hex(), text, idx, ht, tag='template-coded')
                 if script_parses(sc):
                     yield mk('c03.spec.raw', cls, sc.hex(), text, idx, rng.choice(HT_STANDARD), tag='template-spec')
         # (1) exhaustive hash-type byte per sampled (tx, script, index)
@@ -438,13 +455,16 @@ class C03(Prop):
             for sc in rng.sample(WITNESS_LIKE, 2) + [gen_witness_shaped(rng) for _ in range(3)] + \
                     rng.sample(NOT_WITNESS, 3):
                 idx = rng.randrange(len(t['vin']) + 1)
-                yield mk('c03.wrapper', rng.choice('im'), sc.hex(), text, idx, rng.choice(HT_STANDARD), tag='wrapper-wit')
+                ht = rng.choice(HT_STANDARD)
+                cls = rng.choice('im')
+                yield mk('c03.wrapper', cls, sc.hex(), text, idx, ht, tag='wrapper-wit')
+                yield mk('c03.wrapper.coded', cls, sc.hex(), text, idx, ht, tag='wrapper-wit-coded')
 
     # ---- real code ------------------------------------------------------------------------------
     def model_line(self, c):
         if c['op'] == 'c03.hist':
             return H.model_line('c03.hist', c)
-        if c['op'] in ('c03.raw', 'c03.spec.raw', 'c03.wrapper'):
+        if c['op'] in ('c03.raw', 'c03.spec.raw', 'c03.wrapper', 'c03.wrapper.coded'):
             return '\t'.join([c['op']] + list(c['args'][1:]))
         return c.line
 
@@ -473,7 +493,7 @@ class C03(Prop):
                     return h.hex()
                 return 'one:err' if h == b'\x01' + b'\x00' * 31 else h.hex() + ':err'
             return self._with_tx(cls, text, f)
-        if op == 'c03.wrapper':
+        if op in ('c03.wrapper', 'c03.wrapper.coded'):
             cls, sc, text, idx, ht = a
             return self._with_tx(cls, text, lambda tx: bytes(S.SignatureHash(
                 S.CScript(bytes.fromhex(sc)), tx, int(idx), int(ht))).hex())
@@ -489,6 +509,16 @@ class C03(Prop):
     def agree(self, c, io, mo):
         if c['op'] == 'c03.hist':
             return H.agree(io, mo)
+        if c['op'] == 'c03.wrapper.coded':
+            # reply = <as coded>|<property-conforming>.  The real code must answer as coded; the conforming answer
+            # is accepted only where the two differ because of the D17 guard (= the guard has been removed)
+            parts = mo.split('|')
+            if len(parts) != 2 or not all(conforming_answer(x) or _re.match(r'err:[A-Za-z:]+\Z', x) for x in parts):
+                return False
+            coded, conf = parts
+            if io == coded:
+                return True
+            return coded == 'err:py:AssertionError' and io == conf and is_witness_shape(bytes.fromhex(c['args'][1]))
         return io == mo
 
     def nontrivial(self, c, io):
@@ -496,7 +526,7 @@ class C03(Prop):
 
     def shrink_candidates(self, c):
         op, a, tag = c['op'], c['args'], c.get('tag', '')
-        if op in ('c03.raw', 'c03.spec.raw', 'c03.wrapper'):
+        if op in ('c03.raw', 'c03.spec.raw', 'c03.wrapper', 'c03.wrapper.coded'):
             cls, sc, text, idx, ht = a
             t, idx, scb = txfmt.parse_tx(text), int(idx), bytes.fromhex(sc)
             for s2 in shrink_script(scb):
@@ -518,7 +548,7 @@ class C03(Prop):
         # D17 (known finding): `assert not script.is_witness_scriptpubkey()` in SignatureHash(SIGVERSION_BASE) — a
         # subscript shaped like a witness program gets AssertionError instead of the digest / ValueError
         try:
-            if c['op'] == 'c03.wrapper' and io == 'err:py:AssertionError' and mo != io \
+            if c['op'] == 'c03.wrapper' and io == 'err:py:AssertionError' and conforming_answer(mo) \
                     and is_witness_shape(bytes.fromhex(c['args'][1])):
                 return D17
             if c['op'] == 'c03.hist' and io.startswith('h=') and is_witness_shape(bytes.fromhex(c['args'][1])):
@@ -527,7 +557,8 @@ class C03(Prop):
                 a, b = io[2:].split(','), mo.split(',')
                 diff = [k for k in range(len(sts)) if a[k] != b[k]]
                 if diff and len(a) == len(b) == len(sts) and all(
-                        a[k] == 'err:py:AssertionError' and sts[k][0][1] == 'wrap' for k in diff):
+                        a[k] == 'err:py:AssertionError' and conforming_answer(b[k]) and sts[k][0][1] == 'wrap'
+                        for k in diff):
                     return D17
         except Exception:  # noqa: BLE001
             pass
